@@ -17,6 +17,9 @@ const (
 func (its *MongoCollections) GetNextCollectionNum(ctx iface.OrdaContext) (int32, errors.OrdaError) {
 	opts := options.FindOneAndUpdate()
 	opts.SetUpsert(true)
+	// the number handed out is the INCREMENTED one: with the default (the document before the update) the first
+	// two collections both received 1
+	opts.SetReturnDocument(options.After)
 	var update = bson.M{
 		"$inc": bson.M{schema.CounterDocFields.Num: 1},
 	}
